@@ -12,10 +12,12 @@ OCAML_UTILS = ['zio.ml']
 OCAML_PACKAGES = ['coq-core.kernel']
 OCAML_FLAGS = '-rectypes -thread'
 
-RULE = ('for each of arvi/evi/gci/nbr/nbr2/ndvi/ndmi/savi/sipi/ebbi and true_color: band rasters (<= 6x6) of every dtype '
-        'uint8..uint64/int8..int64/float32/float64 (also mixed per band) drawn from the classes small integers, signed '
+RULE = ('for each of arvi/evi/gci/nbr/nbr2/ndvi/ndmi/savi/sipi/ebbi and true_color: band rasters (<= 6x6, plus large-ish ones up to '
+        '14x16 quick / 50x60 thorough; dimension names y,x / lat,lon / row,col / x,y; Fortran / strided / negative-stride layouts) of every '
+        'dtype uint8..uint64/int8..int64/float16/float32/float64 (also mixed per band) drawn from the classes small integers, signed '
         '(zero sums), zeros, equal bands, values >= 2^24 / near the dtype limits, dyadic fractions, random floats, '
-        'NaN/+-inf/-0.0/tiny/huge cells; parameter grids for soil_factor (incl. +-1, 0, outside [-1,1], NaN), c1, c2, '
+        'NaN/+-inf/-0.0/tiny/huge cells; soil_factor over all of [-1,1] (grid incl. +-1, 0, outside, NaN; dyadic and random reals; nextafter(+-1)), '
+        'c1, c2, gain >= 0 (grids, random reals, 1e-9 .. 1e6, numpy float64 scalars), optional arguments left at their defaults, name= given, '
         'gain (incl. 0, negative), nodata/c/th; positional and keyword calls; the same stream Dask-backed (every dtype, single / '
         '1-cell / uneven chunks, mixed chunkings per band, computed and compared exactly like the NumPy result); a repeated call '
         'and a swapped-band call on the SAME band objects (in-place writes show there); groups of 2-3 lazy Dask results of one '
@@ -46,6 +48,8 @@ ASSUMPTIONS = [
     'parameters c1, c2, soil_factor, gain, nodata, c, th are Python ints/floats; integer parameters are small enough to be exact doubles',
     'true_color nodata values are float32-representable when the red raster is float32 (NumPy compares a float32 array against '
     'float32(nodata)); integer rasters handed to true_color are below 2^53',
+    'true_color rasters have at least one cell (np.nanmin of an empty band raises); parameters are Python ints/floats or numpy float64 '
+    '(evi rejects numpy float32 scalars as "not numeric")',
     '"published formula" for ARVI is the ArcGIS form (NIR-2R+B)/(NIR+2R+B) the library documents',
 ]
 PARTIAL = [
@@ -76,7 +80,7 @@ LEVEL_NOTE = ('kernels are written once over an arithmetic record; theorems are 
 
 U = Fraction(1, 2 ** 24)
 INT_DT = ['uint8', 'uint16', 'uint32', 'uint64', 'int8', 'int16', 'int32', 'int64']
-FLT_DT = ['float32', 'float64']
+FLT_DT = ['float32', 'float64', 'float16']
 ALL_DT = INT_DT + FLT_DT
 
 
@@ -263,6 +267,8 @@ def oracle_index(ctx, case, out):
                     if moderate(vals):
                         ctx.violation('oracle', '%s: bands %r gave %r, formula value %s' % (fn, raw, o, float(q)), rep)
                         return False
+                elif not moderate(vals):
+                    pass                                  # float32 overflow / underflow of an intermediate (|band| beyond 2^+-60)
                 elif abs(Fraction(o) - q) > tol + abs(q) * 2 * U:
                     ctx.violation('oracle', '%s: bands %r params %r gave %r, band formula gives %.9g' % (fn, raw, params, o, float(q)), rep)
                     return False
@@ -354,6 +360,9 @@ def gen_value(rng, dt, kind):
     if dt == 'float32':
         with np.errstate(all='ignore'):
             v = float(np.float32(v))
+    if dt == 'float16':
+        with np.errstate(all='ignore'):
+            v = float(np.float16(v))
     return v
 
 
@@ -361,10 +370,10 @@ KINDS_INT = ['small', 'small', 'signed', 'zeros', 'big', 'wide']
 KINDS_FLT = ['small', 'signed', 'zeros', 'big', 'frac', 'special', 'rand']
 
 
-def gen_bands(rng, nb, quick=True):
+def gen_bands(rng, nb, quick=True, shape=None):
     """-> (dtypes, kind, bands as nested python lists)"""
-    rows, cols = rng.randint(1, 4), rng.randint(1, 5)
-    if rng.random() < 0.04:
+    rows, cols = shape or (rng.randint(1, 4), rng.randint(1, 5))
+    if shape is None and rng.random() < 0.04:
         rows = 0 if rng.random() < 0.5 else rows
         cols = 0 if rows != 0 else cols
     dt0 = rng.choice(ALL_DT)
@@ -389,6 +398,9 @@ def gen_bands(rng, nb, quick=True):
             pass
         else:
             neg = -a
+            if lim is None and dts[1] in ('float32', 'float16') and isinstance(neg, (int, float)):
+                with np.errstate(all='ignore'):          # the planted value must be a value of the band's dtype
+                    neg = float(np.dtype(dts[1]).type(neg))
             if lim is None or (isinstance(neg, int) and lim[0] <= neg <= lim[1]):
                 if not (lim is None and isinstance(neg, int)):
                     bands[1][y][x] = neg          # val1 + val2 == 0
@@ -421,14 +433,47 @@ C2S = [7.5, 0.0, 1, 6.0, 0.5]
 GAINS = [2.5, 1.0, 0, 0.0, 2, 0.5, -1.0, -0.5]
 
 
+DEFAULTS = dict(savi=dict(soil_factor=1.0), evi=dict(c1=6.0, c2=7.5, soil_factor=1.0, gain=2.5))
+
+
+def any_soil(rng):
+    u = rng.random()
+    if u < 0.45:
+        return rng.choice(SOILS[:11])
+    if u < 0.6:
+        return rng.choice(SOILS)
+    if u < 0.8:
+        return rng.randint(-64, 64) / 64.0                 # dyadic, all of [-1, 1]
+    if u < 0.95:
+        return rng.uniform(-1.0, 1.0)
+    return float(np.nextafter(rng.choice([-1.0, 1.0]), 0.0))
+
+
+def any_coef(rng, base):
+    u = rng.random()
+    if u < 0.5:
+        return rng.choice(base)
+    if u < 0.7:
+        return rng.randint(0, 160) / 16.0
+    if u < 0.9:
+        return rng.uniform(0.0, 10.0)
+    return rng.choice([1e6, 1e-9, 2.0 ** 30, 1e-3, 100])
+
+
 def gen_params(rng, fn):
     if fn == 'savi':
-        return dict(soil_factor=rng.choice(SOILS[:11]) if rng.random() < 0.8 else rng.choice(SOILS))
-    if fn == 'evi':
-        return dict(c1=rng.choice(C1S), c2=rng.choice(C2S),
-                    soil_factor=rng.choice(SOILS[:11]) if rng.random() < 0.85 else rng.choice(SOILS[:15]),
-                    gain=rng.choice(GAINS[:6]) if rng.random() < 0.85 else rng.choice(GAINS))
-    return {}
+        p = dict(soil_factor=any_soil(rng))
+    elif fn == 'evi':
+        s_ = any_soil(rng)
+        if isinstance(s_, float) and math.isnan(s_) and rng.random() < 0.5:
+            s_ = 0.5
+        p = dict(c1=any_coef(rng, C1S), c2=any_coef(rng, C2S), soil_factor=s_,
+                 gain=any_coef(rng, GAINS[:6]) if rng.random() < 0.85 else rng.choice(GAINS))
+    else:
+        return {}
+    if rng.random() < 0.1:
+        p = {k: (np.float64(v) if isinstance(v, float) else v) for k, v in p.items()}      # numpy float64 scalars are floats
+    return p
 
 
 # ---------------------------------------------------------------- running
@@ -442,8 +487,20 @@ def to_array(band, dt):
     return a
 
 
-def da(a):
-    return xr.DataArray(a, dims=['y', 'x'])
+def da(a, dims=None):
+    return xr.DataArray(a, dims=list(dims or ['y', 'x']))
+
+
+def relayout(a, lay):
+    if lay == 'F':
+        return np.asfortranarray(a)
+    if lay == 'view' and a.size:                  # strided, non-contiguous view
+        big = np.zeros((2 * a.shape[0], 2 * a.shape[1]), dtype=a.dtype)
+        big[::2, ::2] = a
+        return big[::2, ::2]
+    if lay == 'neg' and a.size:                   # negative strides
+        return a[::-1, ::-1].copy()[::-1, ::-1]
+    return a
 
 
 def wrap_dask(a, chunks):
@@ -475,9 +532,11 @@ def build_arrays(case):
     arrs = []
     for k, (b, dt) in enumerate(zip(case['bands'], case['dtypes'])):
         a = to_array(b, dt)
+        if case.get('layout'):
+            a = relayout(a, case['layout'][k % len(case['layout'])])
         if case.get('chunks') is not None:
             a = wrap_dask(a, case['chunks'][k])
-        arrs.append(da(a))
+        arrs.append(da(a, case.get('dims')))
     return arrs
 
 
@@ -486,12 +545,16 @@ def call_index(ms, case, arrs=None):
     if arrs is None:
         arrs = build_arrays(case)
     f = getattr(ms, fn)
-    params = case.get('params', {})
+    params = {} if case.get('omit_defaults') else dict(case.get('params', {}))     # optional arguments left at their defaults
+    if case.get('name'):
+        params['name'] = case['name']
     with np.errstate(all='ignore'):
         if case.get('style') == 'kw':
             res = f(**dict(zip(ARGS[fn], arrs)), **params)
         else:
             res = f(*arrs, **params)
+    if case.get('name') and res.name != case['name']:
+        raise AssertionError('%s: result is named %r, asked for %r' % (fn, res.name, case['name']))
     return res
 
 
@@ -744,6 +807,8 @@ def run_true_color_group(ctx, ms, rng):
     """two lazy true_color images of the same Dask bands with different nodata / c / th in one dask.compute"""
     import dask
     case = gen_true_color(rng)
+    case['dims'] = ['y', 'x']
+    case.pop('omit_defaults', None)
     rows_, cols_ = len(case['bands'][0]), len(case['bands'][0][0])
     ch = gen_chunks(rng, rows_, cols_, rng.choice(['single', 'cells', 'uneven']))
     case['chunks'] = [ch, ch, ch]
@@ -796,7 +861,7 @@ def metamorphic(ctx, ms, case, out):
                                   dict(case, swapped=True, got=b, original=a))
                     return
     # scaling by a power of two: only float dtypes, moderate magnitudes (no overflow / underflow)
-    if fn in ND + ['sipi', 'arvi', 'gci'] and all(d.startswith('float') for d in case['dtypes']):
+    if fn in ND + ['sipi', 'arvi', 'gci'] and all(d in ('float32', 'float64') for d in case['dtypes']):
         k = rng.choice([-7, -3, -1, 1, 2, 5, 9])
         ok = True
         nb = []
@@ -852,9 +917,16 @@ def gen_true_color(rng):
         for _ in range(rng.randint(1, 2)):
             bands[0][rng.randrange(rows)][rng.randrange(cols)] = float('nan')
         nodata = rng.choice([-1, -3.0, -9999, -0.5, 0, 1, nodata])
-    c = rng.choice([10.0, 10, 5.0, 1.0, 20.0, 0.0])
-    th = rng.choice([0.125, 0.5, 0.0, 0.25, 1.0, 0.3])
-    return dict(fn='true_color', dtypes=[dt] * 3, kind=kind, bands=bands, params=dict(nodata=nodata, c=c, th=th))
+    c = rng.choice([10.0, 10, 5.0, 1.0, 20.0, 0.0, -5.0, 100.0, 0.37, 1e-3])
+    th = rng.choice([0.125, 0.5, 0.0, 0.25, 1.0, 0.3, -0.5, 2.0, 0.77])
+    if rng.random() < 0.15:
+        nodata = rng.choice([-100, -2.5, 2 ** 20, 65535, 1e6]) if dt != 'float32' else rng.choice([-100.0, -2.5, 1048576.0])
+    case = dict(fn='true_color', dtypes=[dt] * 3, kind=kind, bands=bands, params=dict(nodata=nodata, c=c, th=th))
+    case['dims'] = rng.choice([['y', 'x'], ['y', 'x'], ['y', 'x'], ['lat', 'lon'], ['x', 'y']])
+    if rng.random() < 0.1:
+        case['params'] = dict(nodata=1, c=10.0, th=0.125)
+        case['omit_defaults'] = True
+    return case
 
 
 def run_true_color(ctx, ms, case, pending):
@@ -863,10 +935,11 @@ def run_true_color(ctx, ms, case, pending):
     arrs = build_arrays(case)
     try:
         with np.errstate(all='ignore'):
-            res = ms.true_color(*arrs, **p)
+            res = ms.true_color(*arrs, **({} if case.get('omit_defaults') else p))
         a = np.asarray(res.data)
     except Exception as e:
-        ctx.violation('oracle', 'true_color raised %s: %s' % (type(e).__name__, e), case)
+        key = 'true-color-dim-names' if (isinstance(e, (KeyError, ValueError)) and list(case.get('dims') or ['y', 'x']) != ['y', 'x']) else None
+        ctx.violation('oracle', 'true_color raised %s: %s (dims %r)' % (type(e).__name__, e, case.get('dims')), case, key=key)
         return
     rows, cols = len(case['bands'][0]), len(case['bands'][0][0])
     if a.shape != (rows, cols, 4) or str(a.dtype) != 'uint8':
@@ -963,8 +1036,24 @@ def run(ctx, model=True):
                           bands=[[[-3, -8, 1, 0]], [[-2, 1, -7, -1]]]))
     cases.append(dict(fn='evi', dtypes=['int32'] * 3, kind='fixed', params=dict(c1=6.0, c2=7.5, soil_factor=1.0, gain=2.5),
                       bands=[[[-30, 2, 1]], [[-2, 1, -7]], [[1, 9, 3]]]))
+    for fn in ALL_FN:                                   # large-ish rasters
+        for _ in range(1 if ctx.quick() else 25):
+            shp = (rng.randint(9, 14), rng.randint(9, 16)) if ctx.quick() else (rng.randint(20, 50), rng.randint(20, 60))
+            dts, kind, bands = gen_bands(rng, len(ARGS[fn]), shape=shp)
+            cases.append(dict(fn=fn, dtypes=dts, kind=kind, bands=bands, params=gen_params(rng, fn)))
+    nlay = 0
     for case in cases:
         fn = case['fn']
+        if case.get('kind') != 'fixed':
+            case['dims'] = rng.choice([['y', 'x'], ['y', 'x'], ['lat', 'lon'], ['row', 'col'], ['x', 'y']])
+            if rng.random() < 0.12:
+                case['name'] = 'idx_%d' % rng.randint(0, 9)
+            if rng.random() < 0.05 and (nlay < 6 or not ctx.quick()):      # memory layouts: each is a Numba specialisation
+                nlay += 1
+                case['layout'] = [rng.choice(['F', 'view', 'neg', None]) for _ in case['bands']]
+            if fn in DEFAULTS and rng.random() < 0.12:
+                case['params'] = dict(DEFAULTS[fn])
+                case['omit_defaults'] = True
         case['style'] = 'kw' if rng.random() < 0.5 else 'pos'
         case['exact'] = is_exact_class(case['bands'], case['params'])
         ctx.case(case, nontrivial=nontrivial(case))
